@@ -435,6 +435,9 @@ func (g *Gen) Next() string {
 			return g.fieldsLine("update", g.signerL(), g.R.Intn(3))
 		}
 	case "native":
+		if g.R.Intn(25) == 0 && len(g.E.Vals) < 6 {
+			return "newval"
+		}
 		switch g.R.Intn(7) {
 		case 0, 1:
 			return fmt.Sprintf("ndelegate %d %d %s", g.val(), g.val(), g.logUniform(8).String())
